@@ -162,13 +162,19 @@ func New(config ...Config) fiber.Handler {
 					if len(e.cencoding) > 0 {
 						c.Response().Header.SetBytesV(fiber.HeaderContentEncoding, e.cencoding)
 					}
+					// the values of a repeated header are stored in one entry, one per line. The lines such a header
+					// already has on the response go first, all of them before any line is added: fasthttp's Del moves
+					// the last line of the whole header into the gap, which would reorder lines added before it
 					for k, v := range e.headers {
-						// the values of a repeated header are stored in one entry, one per line
+						if bytes.IndexByte(v, '\n') >= 0 {
+							c.Response().Header.Del(k)
+						}
+					}
+					for k, v := range e.headers {
 						if bytes.IndexByte(v, '\n') < 0 {
 							c.Response().Header.SetBytesV(k, v)
 							continue
 						}
-						c.Response().Header.Del(k)
 						for _, line := range bytes.Split(v, []byte{'\n'}) {
 							c.Response().Header.AddBytesV(k, line)
 						}
